@@ -214,6 +214,12 @@ where
                         Err(format!("Expected 2-digit sec in range 0..=60, got {}", s))
                     }
                 }
+                Some(DateToken::Number(ref s, Some(ref f))) if s.len() == 2 && f.len() > 9 => {
+                    Err(format!(
+                        "Expected at most 9 digits after the decimal point of sec, got {}.{}",
+                        s, f
+                    ))
+                }
                 Some(DateToken::Number(ref s, Some(ref f))) if s.len() == 2 => {
                     let secs = u32::from_str_radix(&**s, 10);
                     let nsecs = u32::from_str_radix(&**f, 10);
